@@ -74,6 +74,16 @@ impl Item {
 }
 
 pub fn eval(it: &Item) -> String {
+    // a call that loops (e.g. an unchecked reader fed a packet that should have been rejected) must end as an
+    // observable result, not as a hung worker: the hook counter doubles as a step ceiling
+    verif_hooks::reset();
+    verif_hooks::set_ceiling(3_000_000);
+    let s = eval_inner(it);
+    verif_hooks::set_ceiling(u64::MAX);
+    s
+}
+
+fn eval_inner(it: &Item) -> String {
     let r = caught(|| match it {
         Item::Parse(x) => match crate::subj::parse(x) {
             Ok(p) => format!("ok:{}:{:?}", hex(p.packet()), crate::bfs_model::snap(&p)),
@@ -181,6 +191,31 @@ pub fn items() -> Vec<Item> {
         renamed.an.push(name_rec(&nm("www.renamed.example.net"), T_CNAME, 1, &nm("mail.example.net")));
         v.push(Item::Compress(encode(&renamed, Strategy::Plain)));
         v.push(Item::Rename(encode(&renamed, Strategy::Max), nm("example.com"), nm("example.net"), true));
+    }
+    // twin packets of the same length in which a region changes from "a name" to opaque bytes that are no
+    // name, still pointed at by a later record: anything remembered about one must not leak into the other
+    {
+        let mk = |t: u16, rd: [u8; 5]| {
+            let mut p = vec![0x12, 0x34, 0x81, 0x80, 0, 1, 0, 2, 0, 0, 0, 0, 1, b'q', 1, b'a', 0, 0, 1, 0, 1];
+            p.extend_from_slice(&[0xc0, 12]);
+            p.extend_from_slice(&t.to_be_bytes());
+            p.extend_from_slice(&[0, 1, 0, 0, 0, 1, 0, 5]);
+            let x = p.len();
+            p.extend_from_slice(&rd);
+            p.extend_from_slice(&[0xc0, x as u8, 0, 1, 0, 1, 0, 0, 0, 1, 0, 4, 1, 2, 3, 4]);
+            p
+        };
+        let good = mk(T_NS, [1, b'x', 1, b'y', 0]);
+        let opaque_bad = mk(T_TXT, [4, b'.', b'.', b'.', b'.']);
+        let opaque_other = mk(T_TXT, [1, b'x', 1, b'z', 0]);
+        for _ in 0..2 {
+            v.push(Item::Parse(good.clone()));
+            v.push(Item::Parse(opaque_bad.clone()));
+            v.push(Item::Parse(good.clone()));
+            v.push(Item::Parse(opaque_other.clone()));
+            v.push(Item::Uncompress(good.clone()));
+            v.push(Item::Uncompress(opaque_bad.clone()));
+        }
     }
     // record texts prone to collide through leftover state: case twins of the same owner and of the same
     // rdata names, and texts that pass the grammar but fail when the record is built (owner too long)
